@@ -118,7 +118,7 @@ def replay(run, path):
         if not ok:
             print("VIOLATION property=C19 replay=%s" % path)
         return 0 if ok else 1
-    if rp.get("kind") in ("race", "fatal"):
+    if rp.get("kind") in ("datarace", "fatal"):
         print("replay: data races depend on the schedule; re-running the check")
         return check(run)
     if rp.get("kind") == "crdt" or "map" in rp.get("scenario", {}):
